@@ -127,6 +127,35 @@ CLAIMS = {
         "engine CFG / guard formulas / resolver",
         "DESIGN.md section 4 C16",
     ),
+    "C04": (
+        "Decides fully that the module-object entry point is a pure delegation (dirname(__file__) for the two module objects, every other "
+        "parameter forwarded to the same-named one with the same default), and structurally: role forwarding into generate_graph; one "
+        "registration per non-excluded directory / .py file under the dotted name of its path with the documented naming shape; ancestors and "
+        "hierarchy edges for every module with nodes created only from scanned modules and importers; the absolute-import prefix and its "
+        "uniform application to absolute (never relative) importees. Does NOT decide names for arbitrary trees or sub-scan = restriction.",
+        "argument-forwarding analysis + CFG dominance + tag-flow (who-may-create nodes, prefix adjustment) + shape checks",
+        "pathlib / os.path semantics; engine flow analysis",
+        "DESIGN.md section 4 C04",
+    ),
+    "C08": (
+        "Decides the exclusion mechanism structurally: in the glob-to-regex conversion the user's text reaches the result only through "
+        "re.escape of the slice that strips at most one leading and one trailing marker, with '.*' and '$' placed per the 4-row table; a path is "
+        "excluded iff re.match of some compiled pattern succeeds on its full string; directories are registered/descended and files "
+        "registered/read/parsed only after the exclusion test on their own path; every glob is converted and the pattern tuple is never None. "
+        "Does NOT decide 'filtered scan = unfiltered scan minus matches' on all trees.",
+        "tag-flow (taint through re.escape) + decision table of marker placement + CFG dominance + Optional-flow check",
+        "re.escape escapes all metacharacters; engine flow / folding",
+        "DESIGN.md section 4 C08",
+    ),
+    "C09": (
+        "Decides the flattening mechanism structurally: during graph construction every node name reaching a networkx sink or the self-edge "
+        "comparison has passed _flatten_graph_node; the self-edge test dominates add_edge; flattening keeps the first limit+1 dotted components, "
+        "is the identity without a limit and is a pure function of (name, limit); the limit handed to the graph is the user's limit plus the "
+        "number of dotted components between root_path and module_path, None stays None. Does NOT decide the quotient law between two scans.",
+        "tag-flow (sanitiser on every sink) + dominance + shape checks + effect analysis",
+        "engine flow analysis / CFG",
+        "DESIGN.md section 4 C09",
+    ),
 }
 
 NOT_BUILT_REASON = "static check not built yet in this session (planned rules: DESIGN.md section 4); no claim is made"
